@@ -991,6 +991,16 @@ def mon_C09_all(t):
 MONITORS["C09"] = mon_C09_all
 
 
+def mon_C10_all(t):
+    early = [f for f in mon_C03(t) if f["event"] == "sweep"]
+    for f in early:
+        f["signature"] = "sweep-removed-live-key"
+    return mon_C10(t) + early
+
+
+MONITORS["C10"] = mon_C10_all
+
+
 def mon_guard(t):
     """For the directed schedules in which a caller keeps a get_ref reference guard while another caller's write blocks on
     that shard: once delete(k) has returned (or has proceeded after the guard was released) no read returns k's value;
